@@ -1,5 +1,5 @@
 #[derive(PartialEq, Eq, Structural, Clone, Copy)]
-pub enum IoErrorKind { InvalidInput, UnexpectedEof, WriteZero, Other, InvalidData }
+pub enum IoErrorKind { InvalidInput, UnexpectedEof, WriteZero, Other, InvalidData, WouldBlock, ConnectionReset }
 pub mod io {
     use super::*;
     pub use super::IoErrorKind as ErrorKind;
